@@ -245,6 +245,30 @@ fn exhaustive_fix_job(job: usize, jobs: usize, k: usize, stride: usize) -> Stats
     st
 }
 
+/// FUNCTION-SPACE COUNTERS: X holds a counter in its truth vector over n variables (bit j = the
+/// value of X at assignment j, read as `exists vars # (minterm_j & X)`); each round adds one until
+/// the vector equals a given pattern. The iteration converges after `pattern` rounds — up to 15
+/// for two variables, 255 for three — far more than 2^n: it is not monotone, and "repeatedly apply
+/// until stable" is all the meaning of a fixed point promises.
+pub fn counter_text(n: usize, pattern: usize, gfp: bool) -> String {
+    let vars: Vec<&str> = ["a", "b", "c"][..n].to_vec();
+    let all = vars.join(", ");
+    let bits = 1usize << n;
+    let minterm = |k: usize| -> String { format!("({})", (0..n).map(|i| if (k >> i) & 1 == 1 { vars[i].to_string() } else { format!("-{}", vars[i]) }).collect::<Vec<_>>().join(" & ")) };
+    // for gfp the vector is stored complemented (start: all ones = counter 0)
+    let bit = |j: usize| -> String { if gfp { format!("-(exists {} # ({} & X))", all, minterm(j)) } else { format!("(exists {} # ({} & X))", all, minterm(j)) } };
+    let done: Vec<String> = (0..bits).map(|j| if (pattern >> j) & 1 == 1 { bit(j) } else { format!("-{}", bit(j)) }).collect();
+    let not_done = format!("-({})", done.join(" & "));
+    let parts: Vec<String> = (0..bits)
+        .map(|j| {
+            let carry = if j == 0 { "true".to_string() } else { format!("({})", (0..j).map(bit).collect::<Vec<_>>().join(" & ")) };
+            let next = format!("({} ^ ({} & {}))", bit(j), carry, not_done);
+            if gfp { format!("({} & -{})", minterm(j), next) } else { format!("({} & {})", minterm(j), next) }
+        })
+        .collect();
+    format!("{} X # {}", if gfp { "gfp" } else { "lfp" }, parts.join(" | "))
+}
+
 fn examples(ctx: &Ctx, st: &mut Stats) {
     // the repository's own example formulas that are small enough for truth tables
     for f in ["examples/4_queens.txt", "examples/fixedpoint.txt", "examples/fp.txt", "examples/state_machine.txt", "examples/cliques.txt", "examples/graph_coloring.txt"] {
@@ -252,6 +276,20 @@ fn examples(ctx: &Ctx, st: &mut Stats) {
         if let Ok(text) = std::fs::read_to_string(&p) {
             if check_text(st, &text, f) {
                 st.bump("repository_examples_judged");
+            }
+        }
+    }
+    for k in 1..=8usize {
+        for variant in 0..4usize {
+            if check_text(st, &super::c09::closed_inner_fixed_points_text(k, variant), "closed-inner-fixed-points") {
+                st.bump("closed_inner_fixed_points_in_an_iterated_outer_one");
+            }
+        }
+    }
+    for (n, pattern) in [(1usize, 3usize), (1, 2), (2, 15), (2, 9), (2, 8), (2, 6), (3, 255), (3, 200), (3, 37)] {
+        for gfp in [false, true] {
+            if check_text(st, &counter_text(n, pattern, gfp), "function-space-counter") {
+                st.bump("function_space_counters");
             }
         }
     }
